@@ -2,6 +2,7 @@ import Naga.Driver.C07
 import Naga.Driver.C18
 import Naga.Driver.C16
 import Naga.Driver.C08
+import Naga.Driver.C19
 
 /-! Line-protocol driver: `nagadrv <cmd> [args]`, one input line ↦ one output line. -/
 
@@ -20,4 +21,5 @@ def main (args : List String) : IO UInt32 := do
   | ["c18"] => loop stdin stdout Naga.Driver.C18.handle; return 0
   | ["c16"] => loop stdin stdout Naga.Driver.C16.handle; return 0
   | ["c08"] => loop stdin stdout Naga.Driver.C08.handle; return 0
+  | ["c19"] => loop stdin stdout Naga.Driver.C19.handle; return 0
   | _ => IO.eprintln s!"nagadrv: unknown command {args}"; return 2
